@@ -155,19 +155,19 @@ const W kHist[] = {
     {OP_O_APPLY, 6}, {OP_O_BILIN, 3}, {OP_O_LIN, 2}, {OP_O_HOLD, 2}, {OP_O_HELD_APPLY, 3},
     {OP_O_HELD_COPY, 1}, {OP_O_DROP, 1},
     {OP_N_NEW, 2}, {OP_N_BAD, 1}, {OP_N_GEN, 3}, {OP_N_COPY, 1}, {OP_N_DROP, 1},
-    {OP_I_INTERP, 2}, {OP_Q_NUMINT, 1}};
+    {OP_I_INTERP, 2}, {OP_Q_NUMINT, 1}, {OP_X_PIN, 4}};
 const W kArith[] = {
     {OP_S_NEW, 3}, {OP_S_EMPTY, 1}, {OP_S_WHOLE, 1},
     {OP_P_NEW, 8}, {OP_P_EMPTY, 1}, {OP_P_COPY, 2}, {OP_P_ASSIGN, 4}, {OP_P_MOVE, 2}, {OP_P_MOVE_ASSIGN, 2},
     {OP_P_XASSIGN, 5}, {OP_P_ADD, 8}, {OP_P_SUB, 6}, {OP_P_MUL, 7}, {OP_P_IADD, 9}, {OP_P_ISUB, 7},
     {OP_P_SCALE, 3}, {OP_P_LSCALE, 2}, {OP_P_DIV, 3}, {OP_P_NEG, 2}, {OP_P_ISCALE, 4}, {OP_P_IDIV, 4},
-    {OP_P_LINCOMB, 7}, {OP_P_EVAL, 1}, {OP_N_GEN, 2}, {OP_I_INTERP, 1}, {OP_G_NEW, 1}, {OP_P_DROP, 1}};
+    {OP_P_LINCOMB, 7}, {OP_P_EVAL, 1}, {OP_N_GEN, 2}, {OP_I_INTERP, 1}, {OP_G_NEW, 1}, {OP_P_DROP, 1}, {OP_X_PIN, 1}};
 const W kXgrid[] = {
     {OP_G_NEW, 5}, {OP_G_COPY, 1}, {OP_S_NEW, 5}, {OP_S_WHOLE, 1}, {OP_S_EMPTY, 1},
     {OP_P_NEW, 9}, {OP_P_EMPTY, 2}, {OP_P_COPY, 1},
     {OP_P_ADD, 5}, {OP_P_SUB, 4}, {OP_P_MUL, 5}, {OP_P_IADD, 5}, {OP_P_ISUB, 4}, {OP_P_LINCOMB, 6},
     {OP_O_APPLY, 7}, {OP_O_BILIN, 7}, {OP_O_LIN, 4}, {OP_O_HOLD, 3}, {OP_O_HELD_APPLY, 4},
-    {OP_N_NEW, 4}, {OP_N_GEN, 2}, {OP_Q_NUMINT, 4}, {OP_S_UNION, 1}, {OP_S_INTERSECT, 1}, {OP_P_EVAL, 1}};
+    {OP_N_NEW, 4}, {OP_N_GEN, 2}, {OP_Q_NUMINT, 4}, {OP_S_UNION, 1}, {OP_S_INTERSECT, 1}, {OP_P_EVAL, 1}, {OP_X_PIN, 3}};
 const W kConc[] = {
     {OP_G_COPY, 3}, {OP_G_DROP, 2}, {OP_G_QUERY, 1}, {OP_G_EQ, 2},
     {OP_S_NEW, 2}, {OP_S_COPY, 3}, {OP_S_DROP, 2}, {OP_S_UNION, 2}, {OP_S_INTERSECT, 2}, {OP_S_QUERY, 1},
@@ -178,7 +178,7 @@ const W kConc[] = {
     {OP_P_ISZERO, 6}, {OP_P_OVERLAP, 2}, {OP_P_EQ, 2},
     {OP_O_APPLY, 6}, {OP_O_BILIN, 5}, {OP_O_LIN, 3}, {OP_O_HOLD, 1}, {OP_O_HELD_APPLY, 4},
     {OP_O_HELD_COPY, 2}, {OP_O_DROP, 1},
-    {OP_N_GEN, 4}, {OP_N_COPY, 2}, {OP_N_DROP, 1}, {OP_N_NEW, 1}, {OP_I_INTERP, 1}, {OP_Q_NUMINT, 1}};
+    {OP_N_GEN, 4}, {OP_N_COPY, 2}, {OP_N_DROP, 1}, {OP_N_NEW, 1}, {OP_I_INTERP, 1}, {OP_Q_NUMINT, 1}, {OP_X_PIN, 6}};
 
 template <size_t N>
 int draw(sim::Rng &r, const W (&tab)[N], const std::vector<bool> &enabled) {
